@@ -68,6 +68,28 @@ def argv_for(params, wd):
                                      '--database', os.path.join(wd, DBNAME)]), ro
 
 
+class scaled_batches:
+    """Scale wpull.util.grouper's 1000-item batches down (environment scaling, like a small
+    buffer in a model checker): only the size constant changes, not the code path."""
+
+    def __init__(self, n):
+        self.n = n
+
+    def __enter__(self):
+        import wpull.util
+        self.orig = wpull.util.grouper
+        if self.n:
+            n = self.n
+            orig = self.orig
+            wpull.util.grouper = lambda it, size, *a, **kw: orig(
+                it, n if size == 1000 else size, *a, **kw)
+
+    def __exit__(self, *exc):
+        import wpull.util
+        wpull.util.grouper = self.orig
+        return False
+
+
 def run1(params, chooser):
     """Run to completion recording crash snapshots.  -> (out, snaps)"""
     import sqlalchemy.event
@@ -111,7 +133,8 @@ def run1(params, chooser):
         return r
     fn.FakeConn.deliver = deliver
     try:
-        out = ar.run(setup=setup)
+        with scaled_batches(params.get('input_batch')):
+            out = ar.run(setup=setup)
     finally:
         fn.FakeConn.deliver = orig_deliver
         sqlalchemy.event.remove(Session, 'before_commit', before_commit)
@@ -130,12 +153,13 @@ def run2(params, snap, chooser=None):
 
         def setup(a):
             a.builder.factory['PipelineSeries'].concurrency = params['conc']
-        return ar.run(setup=setup)
+        with scaled_batches(params.get('input_batch')):
+            return ar.run(setup=setup)
     finally:
         warcharn.cleanup(wd)
 
 
-def judge_resume(params, ro, full_requests, snap_rows, reqs_before, out2):
+def judge_resume(params, ro, full_requests, snap_rows, reqs_before, out2, full_rows=None):
     site, starts = c01.get_site(params)
     if out2['result'] != 'ok':
         return 'resume does not terminate: %s' % out2['result']
@@ -150,6 +174,9 @@ def judge_resume(params, ro, full_requests, snap_rows, reqs_before, out2):
     for u in snap_rows:
         if u not in rows2:
             return 'URL discovered before the kill is gone after resume: %s' % u
+    for u in (full_rows or ()):
+        if u not in rows2:
+            return 'URL recorded by an uninterrupted crawl has no row after resume: %s' % u
     req2 = Counter(c01.requrl(q) for q in out2['requests'])
     # done before the kill => not visited again (it may still be a redirect hop target)
     o2 = dict(c01.ref_opts(ro))
@@ -189,7 +216,10 @@ def explore_run1(params, chooser):
     seen = set()
     kinds = Counter()
     resumes = 0
+    limit = params.get('max_crash_points')
     for idx, (label, nreq, snap) in enumerate(snaps):
+        if limit is not None and idx >= limit:
+            break
         key = h64(tuple(sorted((k, v) for k, v in snap.items())))
         if (key, nreq) in seen:
             continue
@@ -199,7 +229,8 @@ def explore_run1(params, chooser):
         out2 = run2(params, snap)
         resumes += 1
         trans += 1
-        v = judge_resume(params, ro, full, snap_rows, full[:nreq], out2)
+        v = judge_resume(params, ro, full, snap_rows, full[:nreq], out2,
+                         full_rows=sorted(out1['rows'] or {}))
         kinds[label] += 1
         if v and violation is None:
             violation = 'kill at crash point %d (%s, after %d requests): %s' % (
@@ -230,6 +261,12 @@ def jobs(tier, seed):
         for c in concs:
             budget = 0 if tier == 'quick' or c == 1 else 1
             js.append(dict(params=dict(site=s, opts=o, conc=c), budget=budget, prefix=[]))
+    # start URLs are stored in batches (1000 per transaction in wpull; the harness scales the
+    # batch size down to 2 so that five start URLs span three transactions)
+    js.append(dict(params=dict(site='fivestart', opts='none', conc=1, input_batch=2),
+                   budget=0, prefix=[]))
+    js.append(dict(params=dict(site='fivestart', opts='r', conc=2, input_batch=2),
+                   budget=0, prefix=[]))
     if seed:
         k = seed % len(js)
         js = js[k:] + js[:k]
